@@ -226,3 +226,19 @@ CHECKS["C04"] = {
     "mandatory_labels": {"all": ["batch>=2", "reopen-at-end", "one-batch-replica", "two-writers", "consecutive-same-subject",
                                  "multimember-group", "contact-group", "g/several-writers", "g/batch-vs-single", "g/reindex"]},
 }
+
+CHECKS["C07"] = {
+    "level": "exploration",
+    "level_text": ("every sequence of the seven contact operations up to a bounded length on one contact (and interleaved on two) plus rapid-generated long sequences "
+                   "with malformed inputs, executed on a real account metadata store and compared after every operation with a reference lifecycle (DESIGN.md appendix A); "
+                   "the same comparison on the reopened store and on replicas fed in one batch / entry by entry"),
+    "level_note": "cells of the table that no document fixes (marked with a dagger in appendix A) are asserted as the guards express them",
+    "technique": "model-based property testing: bounded-exhaustive operation sequences + rapid state machine against a reference transition table",
+    "rule": ("case = one operation sequence; non-trivial = sequence with >=1 refusal and an implicit path (enqueue on received/removed/discarded, incoming on to-request) "
+             "or a seed/metadata backfill; distinct = distinct sequence"),
+    "assumptions": ["contact state is independent per contact, so exhaustive sequences share a store with fresh contact keys"],
+    "units": [
+        {"pkg": ".", "run": "^TestVerif_C07_", Q: {"timeout": 900}, T: {"timeout": 3400, "shards": 16}},
+    ],
+    "mandatory_labels": {"all": ["seq/refusal", "seq/implicit-path", "seq/backfill", "seq/malformed-input", "seq/reopen-mid-sequence"]},
+}
